@@ -271,6 +271,8 @@ class RestAPI(object):
                     return aws_error("StateMachineAlreadyExists"), 400
 
                 definition = params.get("definition", "")
+                if not isinstance(definition, str):
+                    return aws_error("InvalidDefinition"), 400
                 """
                 First check if the definition length has exceeded the 1048576
                 character limit described in the CreateStateMachine API page.
@@ -506,6 +508,8 @@ class RestAPI(object):
                     state_machine["roleArn"] = role_arn
 
                 definition = params.get("definition", "")
+                if not isinstance(definition, str):
+                    return aws_error("InvalidDefinition"), 400
                 if definition:
                     """
                     First check if the definition length has exceeded the 1048576
@@ -618,6 +622,8 @@ class RestAPI(object):
                     return aws_error("InvalidName"), 400
 
                 input = params.get("input", "{}")
+                if not isinstance(input, str):
+                    return aws_error("InvalidExecutionInput"), 400
                 """
                 First check if the input length has exceeded the 262144 character
                 quota described in Stepfunction Quotas page.
